@@ -19,7 +19,8 @@ LEVEL_NOTE = ("theorems: every recorded state of the resolved-layer core (rename
 RULE = ("seeded random put worlds (as C01) plus forced cross-volume worlds (home fallback onto another volume: copy, then "
         "delete, of files, links and directory trees); for each, every state before each mutating "
         "call and the final state is compared with the model's state sequence and checked against the Lean predicate "
-        "C05.Holds; thorough: real kills at every call index of a sample")
+        "C05.Holds; a keyboard interrupt delivered right after each mutating call in turn (the interpreter unwinds through the "
+        "program's handlers) must leave a state satisfying the same predicate; thorough: real kills at every call index of a sample")
 
 
 def kill_task(task):
@@ -77,6 +78,36 @@ def fallback_task(task):
     return eval_task(t)
 
 
+def interrupt_task(task):
+    """a keyboard interrupt (SIGINT) right after each mutating call in turn: the interpreter unwinds through the program's
+    own handlers; whatever they do on the way out, the state left behind must satisfy the same invariant as after a kill"""
+    from ..lean import hx
+    from ..model import snapshot_rows
+    from ..putcheck import put_facts
+    from ..runner import driver
+    rng = task_rng("C05i", task["seed"], task["i"])
+    world = fallback_world(rng) if task["i"] % 2 else gen_put_world(rng, "single")
+    full = run_world(world, {}, facts=put_facts)
+    facts = full["facts"]
+    n = len(full["trace"])
+    drv = driver()
+    mounts = [hx(x) for x in world["mounts"]]
+    dirs = [hx(d["dir"]) for d in facts["dirs"]]
+    entries = [hx(it["entry"]) for it in facts["items"] if it["entry"] is not None]
+    bad = []
+    for k in range(min(n, 60)):
+        o = run_world(world, {"interrupt_after": k})
+        r = drv.ask({"op": "oracle", "prop": "C05", "before": snapshot_rows(full["before"]), "after": snapshot_rows(o["after"]),
+                     "mounts": mounts, "dirs": dirs, "entries": entries})
+        if not r["ok"]:
+            bad.append({"k": k, "verdict": r["verdict"], "call": full["trace"][k][:2], "exc": o.get("exc")})
+    out = {"n": n, "bad": bad, "args": [repr(a) for a in world["args"]], "kind": world["meta"][0].get("kind", "?") if world["meta"] else "?"}
+    if bad:
+        from ..runner import jsonable
+        out["world"] = jsonable(world)
+    return out
+
+
 def run(tier, seed):
     ck = Check("C05", tier, seed)
     info = audit("C05")
@@ -84,6 +115,19 @@ def run(tier, seed):
     results = run_tasks(eval_task, [{"pid": "C05", "seed": seed, "i": i, "cfg": CFG} for i in range(n)])
     absorb(ck, "C05", results, CFG, "Model.Put")
     absorb(ck, "C05", run_tasks(fallback_task, [{"pid": "C05", "seed": seed, "i": i, "cfg": CFG} for i in range(nf)]), CFG, "Model.Put")
+    ints = run_tasks(interrupt_task, [{"seed": seed, "i": i} for i in range(30 if tier == "quick" else 400)])
+    ni = 0
+    for r in ints:
+        if "machinery" in r:
+            from ..lean import MachineryError
+            raise MachineryError(r["machinery"])
+        ni += r["n"]
+        ck.case(("interrupt", tuple(r["args"]), r["n"]), tags=["interrupt-sweep", "interrupt:kind:" + str(r["kind"])],
+                sample={"interrupt_after_each_of": r["n"], "args": r["args"]})
+        for b in r["bad"][:3]:
+            ck.violation("interrupted: " + b["verdict"], {"oracle": "C05", "interrupt": True},
+                         {"world": r.get("world"), "interrupt_after": b["k"], "call": b["call"], "verdict": b["verdict"]})
+    ck.extra["interrupt_points"] = ni
     if tier == "quick":
         from ..putfamily import search_failing_input
         search_failing_input(ck, "C05", seed, CFG, n, "Model.Put")
